@@ -149,22 +149,24 @@ func (g *Generate) Parse() error {
 //
 // This will throw an error because "val" matches E1 and E2.
 func validateParsableTraits(enumType string, traits TraitDescs) error {
-	parsableTraitResults := make(map[string]string)
+	// Two instances clash when they denote the same constant (same type, equal value) — that is
+	// what Parse<T> compares, however the constant is spelled on its line — but belong to
+	// different enum values. Without type information the spelling is compared, as before.
+	var seen []TraitInstance
 	for _, trait := range traits {
-		if trait.Parsable {
-			for _, instance := range trait.Traits {
-				if parseTo, ok := parsableTraitResults[instance.value]; ok {
-					if parseTo != instance.OwningValue.Name {
-						return fmt.Errorf(
-							"Enum: %s cannot have parsableTrait %s because trait value %s is "+
-								"found in %s and %s. parsableByTrait values must be unique within the enum.",
-							enumType, trait.Name, instance.value, parseTo, instance.OwningValue.Name)
-					}
-
+		if !trait.Parsable {
+			continue
+		}
+		for _, instance := range trait.Traits {
+			for _, other := range seen {
+				if other.OwningValue.Name != instance.OwningValue.Name && other.clashesWith(instance) {
+					return fmt.Errorf(
+						"Enum: %s cannot have parsableTrait %s because trait value %s is "+
+							"found in %s and %s. parsableByTrait values must be unique within the enum.",
+						enumType, trait.Name, instance.value, other.OwningValue.Name, instance.OwningValue.Name)
 				}
-				parsableTraitResults[instance.value] = instance.OwningValue.Name
 			}
-
+			seen = append(seen, instance)
 		}
 	}
 	return nil
